@@ -667,6 +667,33 @@ def check(run, repo, tier):
   fn = _body_function(w, fn0)
   if fn is None:
     return          # (reported as an analysis error)
+  # the scan must look at every page: an early exit leaves later pages unclamped
+  R0 = run.rule("C36-R1", "valid tree: every page that stays gets an indentation <= kept+1 and "
+                ">= 0 (inductive invariant max_next_indent <= kept+1)", floor=6)
+  item_loops = [s for s in fn.node.body if isinstance(s, ast.For)]
+  early = []
+  if len(item_loops) == 1:
+    def scan(stmts):
+      for s in stmts:
+        if isinstance(s, (ast.Break, ast.Return)):
+          early.append(s)
+        elif isinstance(s, (ast.For, ast.While, ast.FunctionDef, ast.ClassDef)):
+          continue          # a break there belongs to that inner loop
+        else:
+          for fld in ("body", "orelse", "finalbody"):
+            b = getattr(s, fld, None)
+            if isinstance(b, list) and b and isinstance(b[0], ast.stmt):
+              scan(b)
+          for h in getattr(s, "handlers", []) or []:
+            scan(h.body)
+    scan(item_loops[0].body)
+    run.ob(R0, fn.qualname, "the loop over the pages has no early exit",
+           "every page that stays is examined (a scan that stops early, e.g. once all removed "
+           "pages were seen, leaves a too-deep page further down unclamped)", not early,
+           witness=("exit at line %d" % early[0].lineno) if early else None, fi=fn.fi,
+           node=early[0] if early else item_loops[0])
+    if early:
+      return
   res = analyse(fn)
   if res is None:
     return          # analyse() could not follow the code (reported as an analysis error)
@@ -936,6 +963,15 @@ VARIANTS = [
    "    if indent != item.indentation:\n"
    "      adjustments.append((item.id, indent))\n"
    "    max_next_indent = indent + 1\n", "C36-R1"),
+  ("seeded-scan-stops-once-removed-pages-are-passed", TV,
+   "    if indent != item.indentation and not is_deleted:\n"
+   "      adjustments.append((item.id, indent))\n",
+   "    if is_deleted:\n"
+   "      pass\n"
+   "    elif indent != item.indentation:\n"
+   "      adjustments.append((item.id, indent))\n"
+   "    elif item.indentation == 0:\n"
+   "      break\n", "C36-R1"),
   ("adjustment-under-wrong-id", TV, "      adjustments.append((item.id, indent))",
    "      adjustments.append((indent, item.id))", "C36-R3"),
   ("fixes-applied-after-removal", U,
